@@ -25,7 +25,7 @@ from .values import (
     to_number,
     to_integer_or_infinity,
 )
-from .errors import JSError, MemoryLimitError, TimeLimitError
+from .errors import JSError, JSSyntaxError, MemoryLimitError, TimeLimitError
 
 # JSON.stringify escapes only what JSON requires (quote, backslash, C0 controls)
 # and lone surrogates; every other character is emitted as is
@@ -1308,13 +1308,17 @@ class Context:
             MemoryLimitError: If memory limit is exceeded
             TimeLimitError: If time limit is exceeded
         """
-        # Parse the code
-        parser = Parser(code)
-        ast = parser.parse()
+        try:
+            # Parse the code
+            parser = Parser(code)
+            ast = parser.parse()
 
-        # Compile to bytecode
-        compiler = Compiler()
-        compiled = compiler.compile(ast)
+            # Compile to bytecode
+            compiler = Compiler()
+            compiled = compiler.compile(ast)
+        except RecursionError:
+            # The parser and compiler recurse over nested constructs
+            raise JSSyntaxError("Program too deeply nested") from None
 
         # Execute
         vm = VM(memory_limit=self.memory_limit, time_limit=self.time_limit)
